@@ -112,13 +112,16 @@ def t1_t2(repo, res, roots, pid_rule_prefix="", lazy=LAZY_INIT, ctor_ok=CTOR_OK,
 
 
 def run(repo, res, tier):
-    res.rules = ["T1 swap-restore on all exits", "T2 who-may-write on the field path", "T3 caller arrays reach no in-place sink"]
+    res.rules = ["T1 swap-restore on all exits", "T2 who-may-write on the field path", "T3 caller arrays and shared tables reach no in-place sink", "T4 method forms leave the receiver unchanged", "T5 no read-only view left in an object"]
     g, seen = t1_t2(repo, res, ROOTS)
     # T1 instances must include the in-place tiling of getBH_level2 unless tiling no longer writes objects at all
     extra = {}
     try:
         import origin_rules
         extra = origin_rules.c08_t3(repo, res) or {}
+        origin_rules.c08_t4(repo, res)
+        import rules_roview
+        rules_roview.run(repo, res, 'T5')
     except ImportError:
         res.notes.append("T3 (ORIGIN) not available")
     return extra
